@@ -149,6 +149,14 @@ def load_findings() -> list:
         return json.load(f)["findings"]
 
 
+def _safe_candidates(camp, scenario, signature, violation):
+    """Candidate generation must never decide the outcome of a check: an exception in it ends the shrinking."""
+    try:
+        yield from camp.shrink_candidates(scenario, signature, violation)
+    except Exception:  # noqa: BLE001
+        return
+
+
 def shrink(camp: Campaign, scenario: dict, signature: str, violation: dict, budget_runs=150, budget_s=90):
     """Greedy: accept a candidate iff it still yields a violation with this signature."""
     t0 = time.time()
@@ -158,7 +166,7 @@ def shrink(camp: Campaign, scenario: dict, signature: str, violation: dict, budg
     improved = True
     while improved and runs < budget_runs and time.time() - t0 < budget_s:
         improved = False
-        for cand in camp.shrink_candidates(best, signature, best_v):
+        for cand in _safe_candidates(camp, best, signature, best_v):
             if runs >= budget_runs or time.time() - t0 > budget_s:
                 break
             runs += 1
